@@ -137,8 +137,21 @@ def check_pair(ctx, kp, inc, exc, k, do_match=True):
     ctx.ev()
     ctx.mon('valid_call')
     ctx.mon(f'form:{f1}')
+    snap_inc = list(a_inc) if isinstance(a_inc, (set, list, tuple)) else a_inc
+    snap_exc = list(a_exc) if isinstance(a_exc, (set, list, tuple)) else a_exc
     try:
-        got = set(_names(fn(include=a_inc, exclude=a_exc)))
+        res = fn(include=a_inc, exclude=a_exc)
+        got = set(_names(res))
+        # the caller's argument objects must come back untouched, and the result must not alias them
+        for nm, arg, snap in (('include', a_inc, snap_inc), ('exclude', a_exc, snap_exc)):
+            if isinstance(arg, (set, list, tuple)):
+                ctx.mon('argument_purity_checks')
+                if sorted(c.name for c in arg) != sorted(c.name for c in snap) or (isinstance(arg, (list, tuple)) and list(arg) != snap):
+                    ctx.violation('argument-mutated', f'valid(include={inc}, exclude={exc}) [{f1}/{f2}] modified its {nm} argument: '
+                                  f'{sorted(c.name for c in snap)} -> {sorted(c.name for c in arg)}', {'include': inc, 'exclude': exc, 'forms': [f1, f2]})
+                if res is arg:
+                    ctx.violation('argument-mutated', f'valid(include={inc}, exclude={exc}) [{f1}/{f2}] returns its own {nm} argument object',
+                                  {'include': inc, 'exclude': exc, 'forms': [f1, f2]})
     except Exception as e:
         ctx.violation('valid', f'valid(include={inc}, exclude={exc}) [{f1}/{f2}] raised {type(e).__name__}: {e}',
                       {'include': inc, 'exclude': exc, 'forms': [f1, f2]})
